@@ -70,6 +70,17 @@ def struct_diamond(depth, nglobals):
     return "\n".join(out) + "\n"
 
 
+def struct_tower(depth):
+    out = ["struct T0 { a: f32 }"]
+    for i in range(1, depth + 1):
+        out.append("struct T%d { a: T%d, b: T%d }" % (i, i - 1, i - 1))
+    out.append("@group(0) @binding(0) var<storage, read> g0: T%d;" % depth)
+    out.append("struct VIn { @location(0) p: vec4<f32> }")
+    out.append("@vertex fn vs(v: VIn) -> @builtin(position) vec4<f32> { return v.p; }")
+    out.append("@compute @workgroup_size(1) fn main() { _ = g0.a; }")
+    return "\n".join(out) + "\n"
+
+
 def wide_struct(nmembers, nglobals):
     out = ["struct Leaf { x: vec4<f32> }", "struct Mid { a: Leaf, b: Leaf, c: array<Leaf, 4> }"]
     out.append("struct Wide { %s }" % ", ".join("m%d: Mid" % i for i in range(nmembers)))
@@ -91,6 +102,8 @@ def stages(rng, tier):
             s1.append(mk(chain(d, f, rng.choice([["compute"], ["vertex", "fragment"], ["fragment", "fragment", "compute"]])), "chain_" + f, d))
     for d in [2, 4, 8, 12, 16]:
         s1.append(mk(struct_diamond(d, 3), "struct_diamond", d))
+    for d in [8, 12, 14]:
+        s1.append(mk(struct_tower(d), "struct_tower", d))
     s1.append(mk(fanout(12, 3, rng), "fanout", 12))
     s1.append(mk(wide_struct(20, 6), "wide_struct", 20))
     deep = [20, 24, 32, 48, 64] if tier != "thorough" else [20, 24, 28, 32, 40, 48, 56, 64, 96, 128]
@@ -99,6 +112,8 @@ def stages(rng, tier):
             s2.append(mk(chain(d, f, ["vertex", "fragment", "compute"]), "chain_" + f, d))
     for d in [18, 20, 22]:
         s2.append(mk(struct_diamond(d, 4), "struct_diamond", d))
+    for d in [18, 22, 26, 28]:
+        s2.append(mk(struct_tower(d), "struct_tower", d))
     for (nh, ns) in [(50, 5), (150, 10), (300, 20)]:
         s2.append(mk(fanout(nh, ns, rng), "fanout", nh))
     s2.append(mk(wide_struct(200, 16), "wide_struct", 200))
@@ -112,7 +127,9 @@ def cases(rng, tier):
 
 def verdict_expr(c, r, ir, real):
     walks, visits = (r.get("counters") or [0, 0])
-    slow = r.get("gen_us", 0) > 5_000_000   # generous: counts decide, wall-clock only catches gross blow-ups
+    # 'well under a second': the unchanged code needs ~10 ms for every case of these families; the counters decide for the two
+    # modelled traversals, wall-clock catches super-linear behaviour anywhere else in the generator
+    slow = r.get("gen_us", 0) > 2_000_000
     return ('[wf %s; (%d <=? N.of_nat (stage_walks %s))%%N && (%d <=? N.of_nat (type_visits %s))%%N; '
             'C20_ok %s %d%%N %d%%N && %s]'
             % (ir, walks, ir, visits, ir, ir, walks, visits, "false" if slow else "true"))
